@@ -251,6 +251,7 @@ def process_obligations(ctx, timeout_ms):
             ctx.undecide(o.name, 'solver returned unknown within %d ms' % timeout_ms)
             continue
         # invalid: replay the counter-model on the real code
+        imprecise = any(str(k).startswith('havoc!') for k in (o.model or {}))
         rp = o.meta.get('replay')
         info = None
         if rp is not None:
@@ -263,6 +264,11 @@ def process_obligations(ctx, timeout_ms):
             except Exception as e:
                 ctx.errors.append('replay of %s crashed: %r\n%s' % (o.name, e, traceback.format_exc()))
                 continue
+        if imprecise and not (info and info.get('confirmed')):
+            # the counter-model assigns a value to a bit operation the INT back end could not express (over-approximated
+            # by an arbitrary integer): the failure may be an artefact of the approximation - undecided, not a violation
+            ctx.undecide(o.name, 'obligation fails only through an over-approximated bit operation on two symbolic values (model %s)' % json.dumps(o.model, default=str)[:200])
+            continue
         if info is None:
             ctx.violation(o.name, o.meta.get('key', 'no-input'), o.meta.get('what', 'obligation failed: ' + o.name),
                           {'obligation': o.name, 'model': o.model, 'smt2': o.smt2()[:20000],
@@ -349,7 +355,7 @@ def finish(ctx, level, n_disch, checker_cmd, explanation):
         'seed': ctx.seed,
         'level': level,
         'coverage': cov,
-        'assumptions': ctx.assumptions,
+        'assumptions': ctx.assumptions + ['trusted: ' + t for t in ctx.trusted],
         'wall_s': round(time.time() - ctx.t0, 2),
         'violations': new_violations,
     }
